@@ -98,6 +98,12 @@ PROPS.update({
     "C08": h2prop(["TurnModel.Props.C08"], ["m:bind", "m:cdata", "pdata", "state"], ["resp", "cdat", "topeer"],
                   ["chandata-invalid-number-emitted"]),
     "C19": h2prop(["TurnModel.Props.C19"], ["m:*"], ["resp"], ["response-wrong-source"]),
+    "C16": dict(h2prop(["TurnModel.Props.C16"],
+                       ["m:connect", "m:cbind", "pconn", "pc2p", "pp2c", "pclosec", "pclosep", "adv", "cclose", "rerr", "close", "state"],
+                       ["resp", "dial", "catt", "cclosed", "p2p", "p2c", "dclosed"], [],
+                       ["PARTIAL: io.Copy / TCP byte piping is the runtime's; byte integrity of the pipe is observed by the harness, not proved about Go",
+                        "connection ids are canonicalised to first-occurrence indices (the real ids are random)"]),
+                env={"VERIF_H2_MODE": "tcp"}),
 })
 
 PROOF_NOTE = ("Trusted: Lean 4.33.0 kernel, axioms propext/Classical.choice/Quot.sound only (audited per theorem on every run), "
@@ -154,6 +160,11 @@ MANIFEST_TEXT.update({
                "DESIGN.md §6 C07", "Lean 4 invariants + exact-expiry theorems + differential correspondence around every horizon"),
     "C08": _mt("chan_bijection invariant (numbers distinct, peers distinct, range) over all reachable states, conflict_400, conflict_iff, rejected_changes_nothing, rebind_no_conflict, emitted_numbers_valid.",
                "DESIGN.md §6 C08", "Lean 4 invariant by induction + differential correspondence"),
+    "C16": _mt("unbound_within_deadline invariant, deadline_closes, bind_success_inv (owner only, stream only, not bound before), bind_once, bind_reject_harmless, dupe_446, "
+               "connect_fresh_id, pipe_identity; tied by TCP-relay histories (Connect / inbound connections / ConnectionBind right and wrong / pipes / closes / 29-31 s steps) replayed through the model. "
+               "PARTIAL: io.Copy and TCP are the runtime's.",
+               "DESIGN.md §6 C16", "Lean 4 invariants + decision theorems + differential correspondence on TCP-relay histories",
+               "Partial: byte piping by io.Copy is observed, not proved."),
     "C19": _mt("resp_tid_dst on every path, binding_truthful, allocate_truthful (with relay uniqueness), retransmit_idempotent, mismatch_437.",
                "DESIGN.md §6 C19", "Lean 4 theorems over all request paths + differential correspondence of every response"),
 })
